@@ -168,7 +168,30 @@ def structural_obligations() -> core.Result:
                               and k.calls[0].get("showemptyattrs") == showempty and k.calls[0].get("nodenames") == nodenames
                               and k.calls[0].get("showcoord") == showcoord):
                         bad.append(f"{cls}{flags}: flags/offset not passed through to the child: {k.calls[0]}")
-    rep = ("import io\nfrom pycparser import c_parser\nast = c_parser.CParser().parse('int f(int a){ return a + 1; }')\n"
+    # the same contract when one node object occupies several child slots (the parser builds such ASTs: one struct body
+    # under several declarators): every occurrence is a child and gets its line; show keeps no memory between siblings
+    import io as _io
+    for cls in classes:
+        fields = cfg[cls]
+        shared = c_ast.ID("shared")
+        kw = {}
+        for f, kind in fields:
+            kw[f] = f"<{f}>" if kind == "attr" else (shared if kind == "child" else [shared, shared])
+        node = getattr(c_ast, cls)(**kw)
+        occ = len(node.children())
+        if occ < 2:
+            continue
+        runs += 1
+        sb = _io.StringIO()
+        try:
+            node.show(buf=sb)
+        except Exception as e:  # noqa
+            bad.append(f"{cls} with one node in {occ} child slots: raised {e!r}")
+            continue
+        if len(sb.getvalue().splitlines()) != 1 + occ:
+            bad.append(f"{cls} with one node object in {occ} child slots: show() prints {len(sb.getvalue().splitlines())} lines, "
+                       f"expected {1 + occ} (one per child occurrence)")
+    rep = ("import io\nfrom pycparser import c_parser\nast = c_parser.CParser().parse('struct P{int x;} a, b; int f(int a){ return a + 1; }')\n"
            "n=[0]\ndef cnt(x):\n    n[0]+=1\n    for _, c in x.children(): cnt(c)\ncnt(ast)\nb=io.StringIO(); ast.show(buf=b)\n"
            "print(n[0], len(b.getvalue().splitlines()))\nprint('REPRODUCED' if n[0] != len(b.getvalue().splitlines()) else 'NOT-REPRODUCED')\n")
     res.obs.append(_ob("C14/gx/Node.show/one-line-per-node", not bad,
